@@ -70,7 +70,8 @@ def run(ctx):
                 def wrap(inner, key='loop-limit', L=L, via_cfg=via_cfg):
                     if via_cfg:
                         return '<svg><var k="0"/>%s</svg>' % inner, {('loop_limit'): L, 'add_auto_styles': False}
-                    return '<svg><config %s="%d"/><var k="0"/>%s</svg>' % (key, L, inner), {'add_auto_styles': False}
+                    other = rng.choice(['', '', '<config border="3"/>', '<config scale="2"/>', '<config theme="dark" font-size="4"/>'])      # settings that leave the limits alone
+                    return '<svg><config %s="%d"/>%s<var k="0"/>%s</svg>' % (key, L, other, inner), {'add_auto_styles': False}
                 # count loop
                 xml, cfg = wrap('<loop count="%d" loop-var="i">%s</loop>' % (n, body))
                 add(xml, cfg, exp, 'count n=%d L=%d' % (n, L), n if exp == 'ok' else None)
